@@ -58,6 +58,8 @@ def sec_seeds():
         det="; ".join(f"{v['harness']}: {v['label']}" for v in q.get('violations',[]))[:300].replace('|','/')
         extra=''
         if 'thorough' in r: extra=' / thorough: '+fmt('thorough')
+        for k in sorted(r):
+            if '@' in k: extra+=' / check '+k.split('@')[1]+': '+fmt(k)+(' ('+'; '.join(v['harness']+': '+v['label'] for v in r[k].get('violations',[])[:2])+')' if r[k].get('violations') else '')
         rows.append(f"| {os.path.basename(d)} | {m['property']} | {fmt('quick')}{extra} | {det} |")
     return "\n".join(rows)
 gen={'PROPS':sec_props,'FINDINGS':sec_findings,'SEEDS':sec_seeds}
